@@ -31,6 +31,9 @@ type c04Case struct {
 	Seed   int64      `json:"seed"`
 	Bulk   int        `json:"bulk"`   // > 0: bulk mode with that many lines
 	Forget bool       `json:"forget"` // bulk: a drop followed by more than 100 filtered-out lines
+	Long   bool       `json:"long"`   // a follow of several seconds (two of the reader's 3 s truncation checks pass), lines trickling in,
+	                                  // a partial line pending across each check; Symlink: the followed path is a symbolic link
+	Symlink bool      `json:"symlink"`
 	Stale  bool       `json:"stale"`  // bulk: a long fully transmitted history, then filtered-out lines reuse its slots, then ONE drop
 }
 
@@ -153,18 +156,71 @@ func c04Run(c c04Case, base string) (res c04Result) {
 			c04CaughtUp(path)
 		}
 	}
+	followPath := path
+	if c.Symlink {
+		followPath = path + ".current"
+		os.Symlink(filepath.Base(path), followPath)
+		defer os.Remove(followPath)
+	}
 	open := func() {
 		wg.Add(1)
 		go func() {
 			defer wg.Done()
-			NewTailFile(path, "id", msgs).Start(ctx, lcontext.LContext{}, lines, re)
+			NewTailFile(followPath, "id", msgs).Start(ctx, lcontext.LContext{}, lines, re)
 		}()
 		if !c04CaughtUp(path) {
 			res.Problem = "the reader did not open the file"
 		}
 		opened = true
 	}
-	if c.Bulk > 0 {
+	if c.Long {
+		open()
+		start := time.Now()
+		n := 0
+		stopTake := make(chan struct{})
+		takeDone := make(chan struct{})
+		go func() { // an attentive consumer
+			defer close(takeDone)
+			for {
+				select {
+				case <-stopTake:
+					return
+				default:
+					take(20 * time.Millisecond)
+				}
+			}
+		}()
+		appendRaw := func(data string) {
+			if f, err := os.OpenFile(path, os.O_APPEND|os.O_WRONLY, 0644); err == nil {
+				f.WriteString(data)
+				f.Close()
+				appended.WriteString(data)
+			}
+		}
+		for time.Since(start) < 6800*time.Millisecond {
+			n++
+			l := fmt.Sprintf("long follow line %d with an a in it %s\n", n, strings.Repeat("=", rng.Intn(40)))
+			el := time.Since(start) % (3 * time.Second)
+			if t := time.Since(start); t > 2850*time.Millisecond && t < 3150*time.Millisecond {
+				// around the reader's first periodic check: lines as fast as the writer can (the reader is at the end of
+				// the file again and again while more is being appended)
+				appendRaw(l)
+				continue
+			}
+			if el > 2600*time.Millisecond && time.Since(start) > 4*time.Second {
+				// around the reader's periodic check: the first half of a line, a pause across the check, the second half
+				appendRaw(l[:len(l)/2])
+				time.Sleep(900 * time.Millisecond)
+				appendRaw(l[len(l)/2:])
+			} else {
+				appendRaw(l)
+			}
+			time.Sleep(time.Duration(5+rng.Intn(40)) * time.Millisecond)
+		}
+		time.Sleep(300 * time.Millisecond)
+		close(stopTake)
+		<-takeDone
+	} else if c.Bulk > 0 {
 		open()
 		n := 0
 		emit := func(match bool) string {
@@ -294,7 +350,7 @@ func c04Run(c c04Case, base string) (res c04Result) {
 				res.Bad = append(res.Bad, fmt.Sprintf("%d selected line(s) before %q were dropped but it reports %d%%", skippedMatching, d.Content, d.Perc))
 			}
 		}
-		if skippedMatching > 0 && capacity >= 100 {
+		if skippedMatching > 0 && capacity >= 100 && !c.Long { // (a long follow has a burst phase in which even the ample queue overflows)
 			res.Bad = append(res.Bad, fmt.Sprintf("%d selected line(s) before %q are missing although the queue was never full", skippedMatching, d.Content))
 		}
 		if d.N <= lastN {
